@@ -105,7 +105,8 @@ struct Model {
 	}
 };
 
-const char *DIRS[] = {"/a", "/b", "/c", "/missing", "~", "~alice/cfg", "~nouser/x", "/a", "~bob"};
+const std::string LONGDIR_POOL = "/l" + std::string(246, 'o') + "ng";
+const char *DIRS[] = {"/a", "/b", "/c", "/missing", "~", "~alice/cfg", "~nouser/x", "/a", "~bob", LONGDIR_POOL.c_str(), "/b"};
 const char *NAMES[] = {"f.conf", "g.conf", "/a/f.conf", "/b/g.conf", "/nope/f.conf", "", "sub/f.conf", "~/f.conf", "~alice/cfg/f.conf", "~alice", "~", "~/", "~bob/f.conf",
 		       "~nouser/f.conf", "~nouser", "f.conf/", "/a", "~alicex/f.conf", "~al/f.conf"};
 
@@ -123,7 +124,9 @@ json generate(uint64_t seed, uint64_t idx, int tier)
 	json fs = json::array();
 	long mk = 100;
 	// "/a/b" and "/c/a" mirror the absolute names "/b/..." and "/a/..." below a search directory
-	const char *roots[] = {"/a", "/b", "/c", "/home/alice", "/home/alice/cfg", "/home/bob", "/root", "/a/b", "/c/a", "/a/nope"};
+	// "/a/sub", "/b/sub": relative names with a directory part ("sub/f.conf") still go through the list
+	static const std::string LONGDIR = "/l" + std::string(246, 'o') + "ng"; // dir + "/" + name is longer than NAME_MAX
+	const char *roots[] = {"/a", "/b", "/c", "/home/alice", "/home/alice/cfg", "/home/bob", "/root", "/a/b", "/c/a", "/a/nope", "/a/sub", "/b/sub", LONGDIR.c_str()};
 	for (const char *d : roots)
 		if (r.chance(5, 6))
 			fs.push_back({{"path", d}, {"kind", "dir"}});
